@@ -1524,6 +1524,10 @@ func (stmt *UpsertIntoStmt) execAt(ctx context.Context, tx *SQLTx, params map[st
 			return nil, fmt.Errorf("%w: specified value must be greater than current one", ErrInvalidValue)
 		}
 
+		// ON CONFLICT DO UPDATE rewrites an existing row: like UPSERT and UPDATE it
+		// has to deprecate the row's previous secondary index entries
+		updatesExistingRow := !stmt.isInsert
+
 		if stmt.isInsert {
 			if err == nil && stmt.onConflict == nil {
 				return nil, store.ErrKeyAlreadyExists
@@ -1566,6 +1570,8 @@ func (stmt *UpsertIntoStmt) execAt(ctx context.Context, tx *SQLTx, params map[st
 					r.ValuesByPosition[i] = v
 					r.ValuesBySelector[encSel] = v
 				}
+
+				updatesExistingRow = true
 
 				// ON CONFLICT DO UPDATE SET ...
 				for _, u := range stmt.onConflict.updates {
@@ -1613,7 +1619,7 @@ func (stmt *UpsertIntoStmt) execAt(ctx context.Context, tx *SQLTx, params map[st
 			}
 		}
 
-		err = tx.doUpsert(ctx, pkEncVals, valuesByColID, table, !stmt.isInsert)
+		err = tx.doUpsert(ctx, pkEncVals, valuesByColID, table, updatesExistingRow)
 		if err != nil {
 			return nil, err
 		}
@@ -1747,12 +1753,9 @@ func (tx *SQLTx) doUpsert(ctx context.Context, pkEncVals []byte, valuesByColID m
 			continue
 		}
 
-		if reusableIndexEntries != nil {
-			_, reusable := reusableIndexEntries[index.id]
-			if reusable {
-				continue
-			}
-		}
+		// an entry whose key does not change still has to carry the new row value:
+		// it is what a scan through this index reads inside the transaction
+		_, reusable := reusableIndexEntries[index.id]
 
 		// the transient entry has the layout of the committed one, primary key included:
 		// rows of one transaction with equal indexed values must not share an entry
@@ -1790,17 +1793,32 @@ func (tx *SQLTx) doUpsert(ctx context.Context, pkEncVals []byte, valuesByColID m
 		smkey := MapKey(tx.sqlPrefix(), MappedPrefix, encodedValues...)
 
 		// no other equivalent entry should be already indexed
-		if index.IsUnique() {
+		if index.IsUnique() && !reusable {
 			if index.createdByOngoingTx {
 				// uniqueness can not be validated: neither committed nor
 				// transient entries are reachable before the index is initialized
 				return fmt.Errorf("%w: %s", ErrUniqueIndexNotYetUsable, index.Name())
 			}
 
-			_, valRef, err := tx.getWithPrefix(ctx, MapKey(tx.sqlPrefix(), MappedPrefix, encodedValues[:len(encodedValues)-1]...), nil)
-			if err == nil && (valRef.KVMetadata() == nil || !valRef.KVMetadata().Deleted()) {
+			// looked up through a key reader: entries of rows this transaction has updated
+			// or deleted are seen as deleted, and the lookup continues past them
+			uniquePrefix := MapKey(tx.sqlPrefix(), MappedPrefix, encodedValues[:len(encodedValues)-1]...)
+
+			r, err := tx.newKeyReader(store.KeyReaderSpec{
+				SeekKey:       uniquePrefix,
+				InclusiveSeek: true,
+				Prefix:        uniquePrefix,
+				Filters:       []store.FilterFn{store.IgnoreExpired, store.IgnoreDeleted},
+			})
+			if err != nil {
+				return err
+			}
+
+			_, _, err = r.Read(ctx)
+			r.Close()
+			if err == nil {
 				return store.ErrKeyAlreadyExists
-			} else if !errors.Is(err, store.ErrKeyNotFound) {
+			} else if !errors.Is(err, store.ErrNoMoreEntries) {
 				return err
 			}
 		}
@@ -1926,7 +1944,7 @@ func (tx *SQLTx) deprecateIndexEntries(
 
 			encVal, _, _ := EncodeValueAsKey(currVal, col.colType, col.MaxLen())
 
-			encodedValues[i+3] = encVal
+			encodedValues[i+2] = encVal
 		}
 
 		// mark existent index entry as deleted
@@ -1937,7 +1955,9 @@ func (tx *SQLTx) deprecateIndexEntries(
 
 			md.AsDeleted(true)
 
-			err = tx.set(MapKey(tx.sqlPrefix(), MappedPrefix, encodedValues...), md, encodedRowValue)
+			// transient, as the entry it hides: the committed entry is removed by the
+			// indexer when the new row value is indexed
+			err = tx.setTransient(MapKey(tx.sqlPrefix(), MappedPrefix, encodedValues...), md, encodedRowValue)
 			if err != nil {
 				return nil, err
 			}
@@ -2272,6 +2292,26 @@ func (tx *SQLTx) deleteIndexEntries(pkEncVals []byte, valuesByColID map[uint32]T
 
 	for _, index := range table.indexes {
 		if !index.IsPrimary() {
+			// hide the row's entry from scans through this index inside the transaction
+			// (the committed entry is removed by the indexer)
+			skey := make([][]byte, 0, 2+len(index.cols)+1)
+			skey = append(skey, EncodeID(table.id), EncodeID(index.id))
+			for _, col := range index.cols {
+				val, specified := valuesByColID[col.id]
+				if !specified {
+					val = &NullValue{t: col.colType}
+				}
+				encVal, _, _ := EncodeValueAsKey(val, col.colType, col.MaxLen())
+				skey = append(skey, encVal)
+			}
+			skey = append(skey, pkEncVals)
+
+			smd := store.NewKVMetadata()
+			smd.AsDeleted(true)
+
+			if err := tx.setTransient(MapKey(tx.sqlPrefix(), MappedPrefix, skey...), smd, encodedRowValue); err != nil {
+				return err
+			}
 			continue
 		}
 
